@@ -57,6 +57,7 @@ type Exec struct {
 	mapShadow map[*MapV]*MapV
 	pc        []*Term
 	pcSet     map[uint32]bool
+	byteDom   map[uint16]*[4]uint64 // per variable of width <= 8: over-approximation of its feasible values under the PC
 	prefix    []Decision
 	pos       int
 	trace     []Decision
@@ -163,6 +164,80 @@ func (ex *Exec) addPC(c *Term) {
 	}
 	ex.pcSet[c.id] = true
 	ex.pc = append(ex.pc, c)
+	ex.refineByteDom(c)
+}
+
+// singleByteVar returns the only variable of c when it has exactly one and that one is at
+// most 8 bits wide.
+func (ex *Exec) singleByteVar(c *Term) (uint16, bool) {
+	vs := ex.f.Vars(c)
+	if len(vs) != 1 || ex.f.vars[vs[0]].W > 8 || ex.f.vars[vs[0]].W == 0 {
+		return 0, false
+	}
+	return vs[0], true
+}
+
+// refineByteDom narrows the value set of a byte-wide variable by a constraint that mentions
+// only that variable (exact evaluation of the constraint on each remaining value).
+func (ex *Exec) refineByteDom(c *Term) {
+	v, ok := ex.singleByteVar(c)
+	if !ok {
+		return
+	}
+	info := ex.f.vars[v]
+	d := ex.byteDom[v]
+	if d == nil {
+		d = new([4]uint64)
+		for x := uint64(0); x <= mask(info.W) && x < 256; x++ {
+			d[x>>6] |= 1 << (x & 63)
+		}
+		ex.byteDom[v] = d
+	}
+	asg := Assignment{info.Name: 0}
+	for x := uint64(0); x < 256; x++ {
+		if d[x>>6]&(1<<(x&63)) == 0 {
+			continue
+		}
+		asg[info.Name] = x
+		if ex.f.Eval(c, asg, map[uint32]uint64{}) == 0 {
+			d[x>>6] &^= 1 << (x & 63)
+		}
+	}
+}
+
+// byteDomDecides evaluates a condition over one byte-wide variable on every value the
+// variable can still take: (true, v) when all agree on v. Sound because the value set
+// over-approximates the feasible values under the path condition.
+func (ex *Exec) byteDomDecides(c *Term) (decided, val bool) {
+	v, ok := ex.singleByteVar(c)
+	if !ok {
+		return false, false
+	}
+	d := ex.byteDom[v]
+	if d == nil {
+		return false, false
+	}
+	info := ex.f.vars[v]
+	asg := Assignment{info.Name: 0}
+	seenT, seenF := false, false
+	for x := uint64(0); x < 256; x++ {
+		if d[x>>6]&(1<<(x&63)) == 0 {
+			continue
+		}
+		asg[info.Name] = x
+		if ex.f.Eval(c, asg, map[uint32]uint64{}) != 0 {
+			seenT = true
+		} else {
+			seenF = true
+		}
+		if seenT && seenF {
+			return false, false
+		}
+	}
+	if seenT == seenF { // empty set: leave it to the solver
+		return false, false
+	}
+	return true, seenT
 }
 
 // slice returns the constraints of the path condition that (transitively) share variables with c.
@@ -285,6 +360,12 @@ func (ex *Exec) decideV(c *Term, val uint64) bool {
 		ex.trace = append(ex.trace, Decision{Taken: false, Forced: true, Val: val})
 		ex.prefix, ex.pos = ex.trace, len(ex.trace)
 		return false
+	}
+	// a condition over a single byte-wide variable whose remaining values all agree
+	if ok, v := ex.byteDomDecides(c); ok {
+		ex.trace = append(ex.trace, Decision{Taken: v, Forced: true, Val: val})
+		ex.prefix, ex.pos = ex.trace, len(ex.trace)
+		return v
 	}
 	// the witness model of the path condition settles one side without a query;
 	// the solver decides the other side.
@@ -638,7 +719,7 @@ func (r *Run) newExec(f *Factory, sol *SolverClient, prefix []Decision) *Exec {
 	return &Exec{
 		eng: r.eng, f: f, sol: sol, run: r,
 		shadow: map[*Cont]*Cont{}, mapShadow: map[*MapV]*MapV{},
-		pcSet: map[uint32]bool{}, prefix: prefix,
+		pcSet: map[uint32]bool{}, byteDom: map[uint16]*[4]uint64{}, prefix: prefix,
 		stepLimit: r.StepLimit, depthLimit: r.DepthLimit,
 		drawCount: map[string]int{}, covers: map[string]bool{},
 		inStub: map[string]bool{}, pools: map[*Cont][]Value{}, onceDone: map[*Cont]bool{},
